@@ -1,0 +1,154 @@
+//go:build verif
+
+package pbft
+
+import (
+	"sync"
+	"time"
+)
+
+// Seams for the deterministic-simulation harness (build tag "verif").
+// Nothing in this file is compiled into a normal build.
+
+// VerifTimeout is the exported view of a timeoutInfo.
+type VerifTimeout struct {
+	Duration time.Duration
+	Height   int64
+	Round    int64
+	Step     RoundStepType
+}
+
+// VerifTicker is a gate in front of the real timeoutTicker: timeouts are
+// scheduled, replaced and fired by the real ticker; a fired timeout (tock) is
+// held until the harness releases it to the receive routine.
+type VerifTicker struct {
+	inner TimeoutTicker
+	out   chan timeoutInfo
+	quit  chan struct{}
+
+	mtx     sync.Mutex
+	held    []timeoutInfo
+	started bool
+	// PassThrough forwards tocks immediately (used while the node replays its WAL
+	// and in engines that do not gate timeouts).
+	PassThrough bool
+}
+
+func NewVerifTicker() *VerifTicker {
+	return &VerifTicker{
+		inner: NewTimeoutTicker(),
+		out:   make(chan timeoutInfo, 1024),
+		quit:  make(chan struct{}),
+	}
+}
+
+func (t *VerifTicker) Start() (bool, error) {
+	t.mtx.Lock()
+	if !t.started {
+		t.started = true
+		go t.pump()
+	}
+	t.mtx.Unlock()
+	return t.inner.Start()
+}
+
+func (t *VerifTicker) Stop() bool {
+	t.mtx.Lock()
+	select {
+	case <-t.quit:
+	default:
+		close(t.quit)
+	}
+	t.mtx.Unlock()
+	return t.inner.Stop()
+}
+
+func (t *VerifTicker) Chan() <-chan timeoutInfo { return t.out }
+
+func (t *VerifTicker) ScheduleTimeout(ti timeoutInfo) { t.inner.ScheduleTimeout(ti) }
+
+func (t *VerifTicker) pump() {
+	for {
+		select {
+		case ti := <-t.inner.Chan():
+			t.mtx.Lock()
+			if t.PassThrough {
+				t.mtx.Unlock()
+				t.out <- ti
+				continue
+			}
+			t.held = append(t.held, ti)
+			t.mtx.Unlock()
+		case <-t.quit:
+			return
+		}
+	}
+}
+
+// Held returns the tocks fired by the real ticker and not yet released.
+func (t *VerifTicker) Held() []VerifTimeout {
+	t.mtx.Lock()
+	defer t.mtx.Unlock()
+	res := make([]VerifTimeout, len(t.held))
+	for i, ti := range t.held {
+		res[i] = VerifTimeout{ti.Duration, ti.Height, ti.Round, ti.Step}
+	}
+	return res
+}
+
+// Release hands the i-th held tock to the receive routine.
+func (t *VerifTicker) Release(i int) bool {
+	t.mtx.Lock()
+	if i < 0 || i >= len(t.held) {
+		t.mtx.Unlock()
+		return false
+	}
+	ti := t.held[i]
+	t.held = append(t.held[:i:i], t.held[i+1:]...)
+	t.mtx.Unlock()
+	t.out <- ti
+	return true
+}
+
+// Drop discards the i-th held tock (a timeout that the simulated node never sees
+// is indistinguishable from one that is delayed forever).
+func (t *VerifTicker) Drop(i int) bool {
+	t.mtx.Lock()
+	defer t.mtx.Unlock()
+	if i < 0 || i >= len(t.held) {
+		return false
+	}
+	t.held = append(t.held[:i:i], t.held[i+1:]...)
+	return true
+}
+
+// VerifQueueLens reports how many messages wait in the peer and internal queues.
+func (cs *ConsensusState) VerifQueueLens() (peer, internal int) {
+	return len(cs.peerMsgQueue), len(cs.internalMsgQueue)
+}
+
+// VerifSetWALHeadSizeLimit sets the size at which the WAL head file is rotated.
+func (cs *ConsensusState) VerifSetWALHeadSizeLimit(n int64) {
+	if cs.wal != nil && cs.wal.group != nil {
+		cs.wal.group.SetHeadSizeLimit(n)
+	}
+}
+
+// VerifWALMaxIndex reports how many times the WAL head has been rotated.
+func (cs *ConsensusState) VerifWALMaxIndex() int {
+	if cs.wal == nil || cs.wal.group == nil {
+		return 0
+	}
+	return cs.wal.group.MaxIndex()
+}
+
+// VerifSetMsgQueueSize sets the capacity of the queues of consensus states
+// created afterwards and returns the previous value.
+func VerifSetMsgQueueSize(n int) int {
+	old := msgQueueSize
+	msgQueueSize = n
+	return old
+}
+
+// VerifReactorFastSync reports whether the reactor still ignores data and votes.
+func (conR *ConsensusReactor) VerifFastSync() bool { return conR.fastSync }
